@@ -8,7 +8,46 @@ W = {"ref": 3, "output": 1.5, "repeat": 2, "encode": 1.5, "interp": 2}
 FMTS = ["json", "yaml", "json-pretty", "jsonl", "yml", "toml"]
 
 
+def crossdoc_case(rng):
+    """documents that depend on one another through cross-document references; output; then a layer that patches
+    only the REFERENCED document; output again.  (An output call must neither evaluate in place inside another
+    document nor remember anything about the state it saw.)"""
+    from props import c10
+    base = c10.stream_case(rng)
+    merges = [s for s in base["steps"] if "merge" in s]
+    docs = [m["merge"]["data"] for m in merges]
+    # nested same-document references inside the documents (they are expanded in place during evaluation)
+    for i in range(len(docs)):
+        if rng.random() < 0.6:
+            try:
+                docs[i] = gen.inject_ref(rng, docs[i])
+            except Exception:
+                pass
+    steps = [{"merge": {"id": f"D{i}", "parents": [], "data": d}} for i, d in enumerate(docs)]
+    steps += [rng.choice([{"outdocs": True}, {"out": rng.choice(FMTS)}]), {"docs": True}]
+    # patch one document through $match on its kind: change a scalar somewhere below a map path
+    for _ in range(rng.randint(1, 2)):
+        ti = rng.randrange(len(docs))
+        scal = [(p, v) for p, v in gen.map_paths(docs[ti]) if not isinstance(v, (dict, list)) and p[0] != "kind"]
+        patch = {"$match": {"kind": docs[ti].get("kind")}}
+        if scal:
+            pth, old = rng.choice(scal)
+            cur = patch
+            for k in pth[:-1]:
+                cur = cur.setdefault(k, {})
+            cur[pth[-1]] = "patched" if old != "patched" else "patched2"
+        else:
+            patch["added"] = 1
+        steps.append({"merge": {"id": f"P{len(steps)}", "parents": [], "data": patch}})
+        if rng.random() < 0.5:
+            steps.append({"outdocs": True})
+    steps += [{"docs": True}, {"outdocs": True}, {"outdocs": True}, {"docs": True}]
+    return {"steps": steps, "env": gen.ENV}
+
+
 def gen_case(rng):
+    if rng.random() < 0.25:
+        return crossdoc_case(rng)
     steps = []
     ids = []
     ncalls = rng.randint(3, 8)
